@@ -19,8 +19,8 @@
 #include "env.h"
 #include "mcsched.h"
 
-enum { OP_RUN, OP_LOCK, OP_JOIN, OP_WAIT, OP_START };
-static const char *opn[] = { "run", "lock", "join", "wait", "start" };
+enum { OP_RUN, OP_LOCK, OP_JOIN, OP_WAIT, OP_START, OP_FLAG };
+static const char *opn[] = { "run", "lock", "join", "wait", "start", "flag" };
 
 struct thr {
 	int used, finished;
@@ -45,7 +45,8 @@ static int nthr;
 static int cur;
 static __thread int self_id = -1;
 
-void (*sched_on_quiescence)(void);
+int (*sched_on_quiescence)(void);
+int (*sched_on_signal)(int tid, int sig);
 void (*sched_on_wait_entry)(int tid, struct env_wait *w);
 void (*sched_on_wait_return)(int tid, struct env_wait *w, int n);
 long sched_max_points;
@@ -95,6 +96,8 @@ static void lk_forget(void *addr)
 			lk[i].addr = NULL;
 }
 
+static int atomic_depth;
+
 /* ---------------------------------------------------------- decisions */
 static int wait_ready(struct thr *t)
 {
@@ -142,6 +145,8 @@ static int enabled(int i)
 		return T[t->target].finished;
 	case OP_WAIT:
 		return wait_ready(t);
+	case OP_FLAG:
+		return *(volatile int *)t->obj != 0;
 	default:
 		return 1;
 	}
@@ -184,6 +189,8 @@ static void decide(int me)
 				if (!T[i].used || T[i].finished)
 					continue;
 				any = 1;
+				if (T[i].op == OP_FLAG)
+					continue;       /* waiting for the harness: counts as idle */
 				if (T[i].op != OP_WAIT) {
 					allwait = 0;
 					continue;
@@ -202,8 +209,8 @@ static void decide(int me)
 				continue;
 			}
 			if (any && allwait) {
-				if (sched_on_quiescence)
-					sched_on_quiescence();
+				if (sched_on_quiescence && sched_on_quiescence())
+					continue;       /* the harness made progress possible again */
 				mc_done();
 			}
 			{
@@ -239,11 +246,14 @@ static void deliver_signals(int me)
 			break;
 		memmove(&T[me].sigq[0], &T[me].sigq[1], (T[me].nsig - 1) * sizeof(int));
 		T[me].nsig--;
-		pthread_kill(pthread_self(), sig);
+		/* the handler runs synchronously here, as one atomic step */
+		atomic_depth++;
+		if (!sched_on_signal || sched_on_signal(me, sig))
+			pthread_kill(pthread_self(), sig);
+		atomic_depth--;
 	}
 }
 
-static int atomic_depth;
 void sched_atomic_begin(void) { atomic_depth++; }
 void sched_atomic_end(void) { atomic_depth--; }
 
@@ -254,6 +264,12 @@ static void point(int op, void *obj, int target, const char *what)
 		return;         /* not a controlled thread (e.g. library constructors before sched_init) */
 	if (atomic_depth && op == OP_RUN)
 		return;         /* inside a harness step declared atomic */
+	if (atomic_depth && op == OP_LOCK) {
+		int *o = lk_owner(obj, 1);
+		if (*o != -1)
+			mc_broken("sched: lock held by thread %d inside an atomic harness step", *o);
+		return;
+	}
 	T[me].op = op;
 	T[me].obj = obj;
 	T[me].target = target;
@@ -262,6 +278,11 @@ static void point(int op, void *obj, int target, const char *what)
 	T[me].op = OP_RUN;
 	if (T[me].nsig && !T[me].in_wait)
 		deliver_signals(me);
+}
+
+void sched_wait_flag(volatile int *flag)
+{
+	point(OP_FLAG, (void *)flag, 0, "wait-flag");
 }
 
 void sched_yield_point(const char *what)
@@ -520,6 +541,7 @@ void sched_init(void)
 	env_thr.mutex_destroy = s_mutex_destroy;
 	env_thr.spin_lock = s_spin_lock;
 	env_thr.spin_unlock = s_spin_unlock;
+	env_thr.lock_reinit = lk_forget;
 	env_thr.create = s_create;
 	env_thr.join = s_join;
 	env_thr.key_create = s_key_create;
